@@ -147,8 +147,14 @@ def clippy_xref():
                             "-Wclippy::unwrap_used", "-Wclippy::expect_used", "-Wclippy::indexing_slicing", "-Wclippy::panic", "-Wclippy::unreachable"],
                            cwd=engine.REPO, env=env, stdout=subprocess.PIPE, stderr=subprocess.STDOUT, text=True)
         import re, collections
-        c = collections.Counter(re.findall(r"clippy::(\w+)", r.stdout))
-        return {"ran": r.returncode == 0, "lint_counts": dict(c), "note": "recorded for comparison with the engine's own census; not a verdict"}
+        c = collections.Counter()
+        for line in r.stdout.splitlines():
+            m = re.search(r"warning: (used `unwrap\(\)` on an? `\w+` value|used `expect\(\)`.*|usage of the `\w+!` macro|slicing may panic|indexing may panic|.*amount.*|`panic` should not be present.*)", line)
+            if m:
+                c[m.group(1)[:60]] += 1
+        return {"ran": r.returncode == 0, "whole_crate_lint_counts": dict(c),
+                "note": "clippy restriction lints over the whole lib (not only the client-reachable region), recorded for comparison with the engine's own "
+                        "census of unwrap/expect/panic!/index sites; clippy::unused_io_amount reporting nothing agrees with C13.1; not a verdict"}
     except Exception as e:
         return {"ran": False, "error": str(e)}
     finally:
